@@ -337,6 +337,13 @@ class Impl:
 
     # -- unit: prepare_overlay_expression + evaluate_overlay
     def unit(self, case):
+        try:
+            return self._unit(case)
+        except Exception as e:       # e.g. a RecursionError on a structure the code under test made cyclic
+            return {"result": None, "error": f"raised {type(e).__name__}: {str(e)[:200]}", "impure": [],
+                    "index": None, "leaves": None}
+
+    def _unit(self, case):
         """-> dict(result=plain | None, error=str | None, impure=[...], index=..., leaves=...)"""
         from koreo.result import PermFail
 
@@ -433,7 +440,7 @@ class Impl:
         try:
             ku.run(go())
         except Exception as e:
-            out["error"] = f"raised {type(e).__name__}: {e}"
+            out["error"] = f"raised {type(e).__name__}: {str(e)[:200]}"
         return out
 
     # -- end to end
@@ -515,7 +522,7 @@ class Impl:
         try:
             ku.run(go())
         except Exception as e:
-            out["error"] = f"raised {type(e).__name__}: {e}"
+            out["error"] = f"raised {type(e).__name__}: {str(e)[:200]}"
         return out
 
 
@@ -1042,7 +1049,7 @@ def explore(ck, impl, drv, n_unit, n_vf, n_prog, n_ov, salt="", model=True):
         try:
             got, impure = impl.overlay(res, over)
         except Exception as e:
-            ck.violate({"kind": "overlay", "resource": res, "overlay": over}, f"_overlay raised {e!r}")
+            ck.violate({"kind": "overlay", "resource": res, "overlay": over}, f"_overlay raised {type(e).__name__}")
             continue
         want = ref_deep_overlay(res, over)
         if impure:
@@ -1105,7 +1112,9 @@ def run(tier: str) -> int:
         "Lean 4.33.0 kernel; axioms of every theorem ⊆ {propext, Classical.choice, Quot.sound}",
         "model lean/Koreo/Overlay.lean hand-transcribed from cel/prepare.py, cel/evaluation.py, cel/functions.py, "
         "resource_function/reconcile/__init__.py, value_function/reconcile.py; tied to the code by this run's "
-        "differential only (no table to extract: the functions are recursive programs, not tables)",
+        "differential; the forced overlay's key shape is regenerated from `_forced_overlay` by "
+        "harness/extractors/Overlay.py and proved equal to the model's (the other functions are recursive "
+        "programs, not tables: nothing robust to extract)",
         "celpy 0.3.0 as the leaf evaluator (an oracle parameter in the theorems; the driver instantiates it with the "
         "generators' path language), kr8s 0.20.7 APIObject.create/patch, harness/cluster.py",
         "harness/c12.py: generators, the reference deep merge `ref_*`, the snapshot walker",
@@ -1120,7 +1129,7 @@ def run(tier: str) -> int:
         "definition handed to prepare is out of scope (prepare works on the cache's private deep copy)",
         "floats restricted to multiples of 1/8",
     ]
-    ck.prove(extractors=[])
+    ck.prove(extractors=["Overlay"])
 
     impl = Impl()
     drv = LeanDriver(PROP)
